@@ -95,6 +95,12 @@ def run_c12(tier, seed):
             tw = string_twin(c["text"], c["reflect"], ci)
             if tw:
                 twins.append({"text": tw[0], "reflect": tw[1], "mode": c["mode"] + "-string-contents"})
+    from .chk_syntax import number_twin
+    for ci, c in enumerate(list(cases)):
+        if ci % 3 == 1:
+            nt = number_twin(c["text"])
+            if nt:
+                twins.append({"text": nt, "reflect": c["reflect"], "mode": c["mode"] + "-zero-padded-integers"})
     cases = cases + twins
     events, meta = [], {}
     for ci, c in enumerate(cases):
